@@ -194,9 +194,46 @@ func c02deep(r *rand.Rand) string {
 	}
 }
 
+// c02selfValidator: a validator (or another value-level construct) whose argument is an enclosing struct or list
+// of the field it constrains, 0-60 struct/list levels below that ancestor: every printer and walker that guards
+// against value-level cycles has to recognise the ancestor however deep the value sits.
+func c02selfValidator(r *rand.Rand) string {
+	depth := []int{0, 1, 2, 3, 7, 12, 15, 16, 17, 20, 31, 33, 40, 60}[r.IntN(14)]
+	useList := r.IntN(4) == 0
+	var open, closeS strings.Builder
+	for i := 0; i < depth; i++ {
+		if useList && i%2 == 1 {
+			open.WriteString("[")
+			closeS.WriteString("]")
+		} else {
+			fmt.Fprintf(&open, "{n%d: ", i)
+			closeS.WriteString("}")
+		}
+	}
+	anc := []string{"a", "a", "a.b", "top"}[r.IntN(4)]
+	inner := []string{
+		"matchIf(%s, {b: 1}, {b: 2})",
+		"matchN(1, [%s])",
+		"matchN(>=0, [%s, {b: 1}])",
+		"and([%s, {b: 1}])",
+		"or([%s, {b: 1}])",
+		"close(%s)",
+		"{%s}",
+		"[...%s]",
+		"%s & {b: 1}",
+		"*%s | {b: 2}",
+		"matchIf({b: 1}, %s, _)",
+		"[%s, 1][0]",
+		"{x: %s}.x",
+		"[for x in [%s] {x}]",
+		"len(%s)",
+	}[r.IntN(15)]
+	return fmt.Sprintf("top: {a: {b: 1, c: %s%s%s}}\na: top.a\n", open.String(), fmt.Sprintf(inner, anc), closeS.String())
+}
+
 func init() {
 	register("C02", "exploration", func(c *Ctx) {
-		c.Rule = "inputs <= 4 KiB: byte/token mutations of the frozen corpus, grammar token soups, PRNG programs of the core fragment (incl. erroneous ones), meaning-preserving rearrangements of evaluator testdata files (duplicated conjuncts, wrapped embeddings … – the shapes that revive fixed crash regressions), deep nestings / long chains, hand-written adversarial seeds. Each input runs parse → build → Validate → Validate(Concrete) → Syntax(Final|All|default)+format → MarshalJSON → yaml.Encode (+ Unify/FillPath on the value) twice in one worker process (fresh contexts) and once more in a second process; monitors: process fate (write-ahead protocol identifies the input of a fatal error), 20 s watchdog per input re-confirmed alone with 90 s, 6 GiB address-space limit, recover() around every case; output digests must agree. A sample goes through the real cue binary (exit status 0/1, no panic text). Non-trivial = distinct input that got past the parser."
+		c.Rule = "inputs <= 4 KiB: byte/token mutations of the frozen corpus, grammar token soups, PRNG programs of the core fragment (incl. erroneous ones), meaning-preserving rearrangements of evaluator testdata files (duplicated conjuncts, wrapped embeddings … – the shapes that revive fixed crash regressions), deep nestings / long chains, validators and other value-level constructs whose argument is an enclosing struct of their own field 0-60 levels up, hand-written adversarial seeds. Each input runs parse → build → Validate → Validate(Concrete) → Syntax(Final|All|default)+format → MarshalJSON → yaml.Encode (+ Unify/FillPath on the value) twice in one worker process (fresh contexts) and once more in a second process; monitors: process fate (write-ahead protocol identifies the input of a fatal error), 20 s watchdog per input re-confirmed alone with 90 s, 6 GiB address-space limit, recover() around every case; output digests must agree. A sample goes through the real cue binary (exit status 0/1, no panic text). Non-trivial = distinct input that got past the parser."
 		c.Assume = []string{"'bounded time and memory' is decided against a fixed envelope for inputs <= 4 KiB, not asymptotically", "known crash sites are matched by call-site signature (innermost three cuelang.org/go frames), known hangs by input"}
 		if c.Replay != nil {
 			src, _ := c.Replay["input"].(string)
@@ -245,6 +282,9 @@ func init() {
 		}
 		for i := 0; i < c.N(2000, 40000); i++ {
 			add(fmt.Sprintf("b%d", i), c02boundary(r), "boundary-magnitudes")
+		}
+		for i := 0; i < c.N(600, 12000); i++ {
+			add(fmt.Sprintf("v%d", i), c02selfValidator(r), "self-referential-validator")
 		}
 		// rearranged evaluator testdata (frozen stream: independent of the seed)
 		var evalFiles []corpusFile
@@ -343,8 +383,16 @@ func c02judge(c *Ctx, inputs, class map[string]string, res, res2 map[string]*bre
 				c.Violate(k, fmt.Sprintf("process dies of memory exhaustion: %s\n  input: %s", firstLine(r.Crash), trunc9(src, 200)), rp)
 				continue
 			}
+			if k := c02selfKey(class[id], src, "crash"); k != "" {
+				c.Violate(k, fmt.Sprintf("process dies: %s\n  at %s\n  input: %s", firstLine(r.Crash), r.Site, trunc9(src, 300)), rp)
+				continue
+			}
 			c.Violate("C02|crash|"+r.Site, fmt.Sprintf("process dies: %s\n  at %s\n  input: %s", firstLine(r.Crash), r.Site, trunc9(src, 300)), rp)
 		case "timeout":
+			if k := c02selfKey(class[id], src, "timeout"); k != "" && c.IsKnown(k) {
+				c.Violate(k, "recorded hang: "+trunc9(src, 200), rp)
+				continue
+			}
 			if k := c02resourceKey(class[id], src); k != "" && c.IsKnown(k) {
 				c.Violate(k, "recorded unbounded builtin", rp)
 				continue
@@ -377,11 +425,18 @@ func c02judge(c *Ctx, inputs, class map[string]string, res, res2 map[string]*bre
 				if cl, ok := strings.CutPrefix(class[cs.ID], "rearranged-testdata:"); ok {
 					tkey = "C02|timeout|rearranged:" + cl // a hang is tied to the testdata file that was rearranged
 				}
+				if k := c02selfKey(class[cs.ID], cs.Src, "timeout"); k != "" {
+					tkey = k
+				}
 				c.Violate(tkey, fmt.Sprintf("pipeline does not finish within 90 s on a %d byte input (re-confirmed alone): %s", len(cs.Src), trunc9(cs.Src, 300)), rp)
 			case r.Status == "crash" || r.Status == "panic":
 				rp["crash"] = r.Crash
 				if k := c02resourceKey(class[cs.ID], cs.Src); k != "" && strings.Contains(r.Crash, "out of memory") {
 					c.Violate(k, "process dies of memory exhaustion: "+trunc9(cs.Src, 200), rp)
+					continue
+				}
+				if k := c02selfKey(class[cs.ID], cs.Src, "crash"); k != "" && r.Status == "crash" {
+					c.Violate(k, fmt.Sprintf("process dies: %s at %s: %s", firstLine(r.Crash), r.Site, trunc9(cs.Src, 200)), rp)
 					continue
 				}
 				c.Violate("C02|"+r.Status+"|"+r.Site, fmt.Sprintf("process dies: %s at %s", firstLine(r.Crash), r.Site), rp)
@@ -390,6 +445,21 @@ func c02judge(c *Ctx, inputs, class map[string]string, res, res2 map[string]*bre
 			}
 		}
 	}
+}
+
+// c02selfKey: in the self-referential-validator stream a hang or a fatal error is attributed to the construct
+// whose argument is the enclosing struct (the evaluator does not see the structural cycle through it).
+var c02selfRe = regexp.MustCompile(`(close\(|matchIf\(\{|matchIf\(|matchN\(1|matchN\(>=0|and\(\[|or\(\[|len\(|\[\.\.\.|\[for x in|\{x: |, 1\]\[0\]|& \{b: 1\}|\| \{b: 2\})`)
+
+func c02selfKey(class, src, fate string) string {
+	if class != "self-referential-validator" {
+		return ""
+	}
+	t := "embedding"
+	if m := c02selfRe.FindString(src); m != "" {
+		t = strings.Trim(m, "([{ ,")
+	}
+	return "C02|self-referential-argument|" + t + "|" + fate
 }
 
 var c02callRe = regexp.MustCompile(`([a-z]+\.[A-Z][A-Za-z0-9]*)\(`)
